@@ -1,3 +1,3 @@
 #!/bin/bash
 # usage: confirm_many.sh C15:a C15:b ...   (sequential)
-for x in "$@"; do id=${x%%:*}; v=${x##*:}; [ -f /tmp/seed/$id/patch_$v.diff ] && /verif/tools/confirm_seed.sh $id $v; done
+for x in "$@"; do id=${x%%:*}; v=${x##*:}; [ -f ${SEEDROOT:-/tmp/seed}/$id/patch_$v.diff ] && /verif/tools/confirm_seed.sh $id $v; done
